@@ -33,6 +33,7 @@ import (
 	opvalidator "github.com/bloxapp/ssv/operator/validator"
 	"github.com/bloxapp/ssv/protocol/v2/blockchain/beacon"
 	"github.com/bloxapp/ssv/protocol/v2/qbft/roundtimer"
+	"github.com/bloxapp/ssv/protocol/v2/ssv/runner"
 	"github.com/bloxapp/ssv/protocol/v2/ssv/queue"
 	"github.com/bloxapp/ssv/protocol/v2/ssv/validator"
 	ssvtypes "github.com/bloxapp/ssv/protocol/v2/types"
@@ -219,6 +220,45 @@ var (
 	beforeStart func(v *validator.Validator) // hook between NewValidator and Start (router mode wraps the queues)
 )
 
+// timerWiringFaults collects (C17) faults of the round-timer wiring done by the production SetupRunners: the timer a role's QBFT
+// controller is configured with must give THAT role's deadline. Behavioural and model-free: the configured timer's own
+// RoundTimeout is compared with the RoundTimeout of a timer freshly built by the real roundtimer.New for the runner's role, on the
+// same beacon network, for a slot far enough ahead that both values are large (they are computed microseconds apart).
+var (
+	timerWiringMu     sync.Mutex
+	timerWiringFaults []string
+	timerWiringSeen   = map[string]bool{}
+)
+
+func checkTimerWiring(ctx context.Context, bn *glueBeacon, runners runner.DutyRunners) {
+	h := specqbft.Height(bn.EstimatedCurrentSlot() + 40)
+	for role, r := range runners {
+		c := r.GetBaseRunner().QBFTController
+		if c == nil {
+			continue
+		}
+		rt, ok := c.GetConfig().GetTimer().(*roundtimer.RoundTimer)
+		if !ok {
+			continue
+		}
+		ref := roundtimer.New(ctx, bn, role, nil)
+		for _, round := range []specqbft.Round{1, 2, roundtimer.QuickTimeoutThreshold, roundtimer.QuickTimeoutThreshold + 2} {
+			got, want := rt.RoundTimeout(h, round), ref.RoundTimeout(h, round)
+			d := got - want
+			if d < 0 {
+				d = -d
+			}
+			timerWiringMu.Lock()
+			timerWiringSeen[fmt.Sprintf("%s/%d", role.String(), round)] = true
+			if d > 200*time.Millisecond {
+				timerWiringFaults = append(timerWiringFaults, fmt.Sprintf("role %s round %d: the controller's timer gives %v until the deadline, a timer built for the role gives %v",
+					role.String(), round, got.Round(time.Millisecond), want.Round(time.Millisecond)))
+			}
+			timerWiringMu.Unlock()
+		}
+	}
+}
+
 func buildWorld(p params, kind rkit.Kind, quick time.Duration) (*world, *glueBeacon, context.CancelFunc) {
 	ks := rkit.KeySet(p.n)
 	ctx, cancelAll := context.WithCancel(context.Background())
@@ -248,6 +288,7 @@ func buildWorld(p params, kind rkit.Kind, quick time.Duration) (*world, *glueBea
 			opts.Signer = signerFor(id)
 		}
 		opts.DutyRunners = opvalidator.SetupRunners(octx, nop, opts) // the production wiring
+		checkTimerWiring(octx, bn, opts.DutyRunners)
 		for _, r := range opts.DutyRunners {
 			if c := r.GetBaseRunner().QBFTController; c != nil {
 				if rt, ok := c.GetConfig().GetTimer().(*roundtimer.RoundTimer); ok {
@@ -498,6 +539,28 @@ func doCase(run *hx.Run, line string) {
 	record(run, p, p.String(), runAttempts(p))
 }
 
+func doTimersCase(run *hx.Run, line string) {
+	n := 4
+	if strings.Contains(line, "n=7") {
+		n = 7
+	}
+	timerWiringMu.Lock()
+	timerWiringFaults = nil
+	timerWiringMu.Unlock()
+	w, _, cancelAll := buildWorld(params{n: n}, rkit.Kinds[0], 2*time.Second)
+	w.shutdown(cancelAll)
+	timerWiringMu.Lock()
+	defer timerWiringMu.Unlock()
+	for _, f := range timerWiringFaults {
+		run.Violate("C17/runner-timer-deadline-differs-from-role-deadline", f, line)
+		break
+	}
+	for k := range timerWiringSeen {
+		run.Seen("timers/" + k)
+	}
+	run.Emit(line, fmt.Sprintf("faults=%d checked=%d", len(timerWiringFaults), len(timerWiringSeen)))
+}
+
 var mode = flag.String("mode", "", "router: network-originated messages through the real handleRouterMessages (C03)")
 
 func main() {
@@ -510,6 +573,8 @@ func main() {
 				doRouterCase(run, l)
 			} else if strings.HasPrefix(l, "ncase") {
 				doNcvCase(run, l)
+			} else if strings.HasPrefix(l, "tcase") {
+				doTimersCase(run, l)
 			} else {
 				doCase(run, l)
 			}
@@ -522,6 +587,13 @@ func main() {
 	}
 	if *mode == "ncv" {
 		genNcv(run)
+		return
+	}
+	if *mode == "timers" { // C17: the round-timer wiring of the production SetupRunners (see checkTimerWiring)
+		for i := 0; i < run.N; i++ {
+			line := fmt.Sprintf("tcase n=%d", []int{4, 7}[i%2])
+			doTimersCase(run, line)
+		}
 		return
 	}
 	// a fixed directed set first, then seeded variations
